@@ -18,7 +18,8 @@ from vlib.common import Obligation, Result, KnownFindings, log
 
 def _module_job(job):
     import time
-    (mname, src, kind), tier, seed, depth, width, builds = job
+    m_, tier, seed, depth, width, builds = job
+    mname, src, kind = m_[:3]
     res = Result("C06", tier, seed, "model_checking")
     t0 = time.time()
     programs = 0
@@ -28,8 +29,8 @@ def _module_job(job):
             if (level, scope) == builds[0]:
                 res.add(Obligation(mname, "undecided", f"corpus module does not compile: {json.dumps(r)[:200]}"))
             continue
-        for fn in r["Ok"]["functions"]:
-            if fn.get("skipped") or not fn.get("post") or not U.passes_natively(fn):
+        for fi, fn in enumerate(r["Ok"]["functions"]):
+            if fn.get("skipped") or not fn.get("post") or not U.passes_natively(fn) or not U.in_chunk(m_, fi):
                 continue
             for which in ("post",):  # the program that ships; pre/post discrepancies are C02's business
                 if not fn.get(which):
@@ -104,7 +105,7 @@ def run(tier: str, seed: int, only=None) -> Result:
     res.extra["trusted_base"] = ["uplcsym (symbolic CEK)", "driver drv-lang (real compiler)", "z3 5.1"]
     kf = KnownFindings()
     mods = [m for m in U.corpus(tier, seed) if not only or only in m[0]]
-    U.merge(res, U.pmap(_module_job, [(m, tier, seed, depth, width, builds) for m in mods]))
+    U.merge(res, U.pmap(_module_job, [(m, tier, seed, depth, width, builds) for m in U.chunked(mods)]))
     res.extra.setdefault("programs", 0)
     res.extra.setdefault("disagreements_checked", 0)
     from props import common_post
